@@ -117,6 +117,17 @@ def limit_probes(rng):
                 for lax in (True, False):
                     out.append((H.Cfg(max_line=ml, max_field=max(mf, 20), response=True, lax=lax, read_until_eof=False),
                                 b"HTTP/1.1 200 " + b"R" * pad + b"\r\nContent-Length: 0\r\n\r\n", "statusline", delta))
+            # obs-folded field (lax only): the *unfolded* field is what the limit applies to
+            n = mf + delta
+            if n >= 12 and mf >= 24:
+                k = rng.choice([2, 3])
+                a = max(1, (n - k) // (k + 1))
+                conts = [a] * (k - 1)
+                last = n - a - sum(c + 1 for c in conts) - 1
+                if last >= 0 and max([a + 3, last + 1] + [c + 1 for c in conts]) < mf:
+                    fold = b"X: " + b"v" * a + b"".join(b"\r\n " + b"w" * c for c in conts) + b"\r\n " + b"z" * last
+                    out.append((H.Cfg(max_line=max(ml, 20), max_field=mf, response=True, lax=True),
+                                b"HTTP/1.1 200 OK\r\n" + fold + b"\r\nContent-Length: 0\r\n\r\n", "folded", delta))
         # header count
         mh = rng.randint(2, 12)
         for d in (-1, 0, 1):
@@ -185,6 +196,20 @@ def check(ctx):
     if outs is not None:
         for (case, canon), m in zip(pending, outs):
             ctx.compare(case, canon, m, "parser vs Aio.Http.feed/feedEof")
+    # "which the server turns into a 400 response": malformed request streams through the real server
+    from . import c01
+    srv = []
+    for _ in range(400 if ctx.quick else 6000):
+        data = b"".join(H.gen_request(rng) for _ in range(rng.choice([1, 2])))
+        data, kind = H.mutate(rng, data)
+        _, o = H.run_impl(H.Cfg(), [data], False)
+        srv.append((data, o))
+    res, excs = c01.server_run([d for d, _ in srv])
+    for (data, o), (out, closed, escaped) in zip(srv, res):
+        c01.oracle_server(ctx, data, o, out, closed, escaped)
+        ctx.case(("srv", data), nontrivial=bool(out))
+    if excs:
+        ctx.violation("C05/loop-exception-handler-called", {"n": len(excs), "first": repr(excs[0])[:300]}, f"{len(excs)} exceptions reached the event loop")
 
 
 def replay(ctx, case):
@@ -195,6 +220,9 @@ def replay(ctx, case):
     for n in case["cuts"]:
         segs.append(data[pos:pos + n]); pos += n
     run_checked(ctx, cfg, segs, "replay")
+    if case.get("server"):
+        from . import c01
+        return c01.replay(ctx, case)
     if "probe" in case:
         _, o = H.run_impl(cfg, segs, True)
         rej = H.rejected(o)
